@@ -909,10 +909,10 @@ var c04AggCols = []c04AggCol{
 	}, ""},
 	// a constant argument: one distinct value however many rows the bucket has; none for NULL
 	{"COUNT(DISTINCT)", "COUNT(DISTINCT 1)", func(vs, ws []rv.V, _ bool) (bucket.Agg, bool) {
-		return bucket.Agg{Kind: "exact", V: rv.I(1)}, true
+		return bucket.Agg{Kind: "exact", V: rv.I(c04One(vs))}, true
 	}, ""},
 	{"COUNT(DISTINCT)", "COUNT(DISTINCT 'x')", func(vs, ws []rv.V, _ bool) (bucket.Agg, bool) {
-		return bucket.Agg{Kind: "exact", V: rv.I(1)}, true
+		return bucket.Agg{Kind: "exact", V: rv.I(c04One(vs))}, true
 	}, ""},
 	{"COUNT", "COUNT(NULL)", func(vs, ws []rv.V, _ bool) (bucket.Agg, bool) {
 		return bucket.Agg{Kind: "exact", V: rv.I(0)}, true
@@ -940,6 +940,14 @@ var c04AggCols = []c04AggCol{
 	{"JSON_AGG", "JSON_AGG(v)", func(vs, ws []rv.V, _ bool) (bucket.Agg, bool) { return c04Always(bucket.JSONAgg(vs)) }, "json"},
 	{"JSON_AGG", "JSON_AGG(w) WITHIN GROUP (ORDER BY id)", func(vs, ws []rv.V, _ bool) (bucket.Agg, bool) { return c04Always(bucket.JSONAgg(ws)) }, "json"},
 	{"user aggregate", "ucat(v)", func(vs, ws []rv.V, _ bool) (bucket.Agg, bool) { return c04Always(bucket.UserAgg(vs)) }, ""},
+}
+
+// c04One: the number of distinct values a constant takes over the rows of a bucket
+func c04One(vs []rv.V) int64 {
+	if len(vs) == 0 {
+		return 0
+	}
+	return 1
 }
 
 func c04NN(vs []rv.V) []rv.V {
